@@ -4,13 +4,13 @@
 (* BFS enumerates all rows within (Free, MaxDev, MaxInvalid); -simulate     *)
 (* draws random rows of the full product.                                   *)
 (* A row is printed compactly (the thorough tier prints > 10^5 of them):    *)
-(*   "<18 option values in Order, comma separated>|<12 expected outputs in  *)
+(*   "<18 option values in Order, comma separated>|<13 expected outputs in  *)
 (*    ExpFields order, comma separated; names joined by '+'>"               *)
 (* tools/props/c20.py turns it back into {cfg: {...}, exp: {...}}.          *)
 EXTENDS ClientConfig, TLC, Json
 
 ExpFields == << "outcome", "mode", "browser", "wsHost", "wsPath", "singleplex", "numConn",
-                "keepAlive", "timeout", "names", "enc", "unordered" >>
+                "keepAlive", "timeout", "names", "enc", "unordered", "dialer" >>
 
 RECURSIVE Join(_, _, _)
 Join(s, sep, i) == IF i > Len(s) THEN ""
